@@ -225,20 +225,21 @@ func parseOperationDefinition(parser *Parser) (ast.Node, error) {
  * OperationType : one of query mutation subscription
  */
 func parseOperationType(parser *Parser) (string, error) {
+	operationToken := parser.Token
+	if operationToken.Kind == lexer.NAME {
+		// check the spelling before consuming the token: consuming lexes the
+		// next token, whose error would otherwise be reported instead
+		switch operationToken.Value {
+		case ast.OperationTypeQuery, ast.OperationTypeMutation, ast.OperationTypeSubscription:
+		default:
+			return "", unexpected(parser, operationToken)
+		}
+	}
 	operationToken, err := expect(parser, lexer.NAME)
 	if err != nil {
 		return "", err
 	}
-	switch operationToken.Value {
-	case ast.OperationTypeQuery:
-		return operationToken.Value, nil
-	case ast.OperationTypeMutation:
-		return operationToken.Value, nil
-	case ast.OperationTypeSubscription:
-		return operationToken.Value, nil
-	default:
-		return "", unexpected(parser, operationToken)
-	}
+	return operationToken.Value, nil
 }
 
 /**
